@@ -505,6 +505,13 @@ def _unit(unit):
     return acc
 
 
+def _tower_unit(terms):
+    acc = Acc()
+    for t in terms:
+        check_term(acc, t)
+    return acc
+
+
 EXTRA = [
     T.binop("Gt", T.binop("Add", typed.F("d"), ("Duration", "P1Y2M3DT4H5M6.5S")), typed.dtlit("2020-02-29T23:59:59Z")),
     T.binop("Lt", typed.F("d"), T.binop("Sub", T.call("now"), ("Duration", "-P1DT1H"))),
@@ -551,6 +558,11 @@ def run(ctx):
         ctx.layer("k3", filters=int(ctx.counts["states"] - before), exhaustive=True)
     for t in EXTRA:
         check_term(ctx, t)
+    before = ctx.counts["states"]
+    tw = SC.deep_terms(CAP, (4, 6) if ctx.quick else (4, 6, 8))
+    ctx.pmap(_tower_unit, [tw[i::32] for i in range(32) if tw[i::32]])
+    ctx.layer("pumped-towers", filters=int(ctx.counts["states"] - before), exhaustive=True,
+              note="every self-composable constructor and every ordered pair of them stacked 4 / 6 (thorough: 8) times on either spine")
 
 
 def _untuple(x):
